@@ -19,6 +19,10 @@ def judge(case):
             try: return cat.run_lib(case, arrs, rg)
             finally: cat.COPY = True
         viol += gradcheck.check_layouts(nocopy, arrays, cat.diff_idx(case, arrays), name, info["rows"], gradcheck.LAYOUTS)
+    if info.get("accepted") and not viol and info.get("rows") is not None and case["op"] not in ("dropout",):
+        sg = harness.load()
+        viol += gradcheck.check_interleaved(runner, arrays, cat.diff_idx(case, arrays), name, info["rows"],
+                                            module_cls=sg.nn.Module if case.get("form", "fn") != "fn" else None)
     nt = bool(info.get("accepted") and info.get("nonzero"))
     return {"nontrivial": nt, "outcome": "accepted" if info.get("accepted") else "rejected", "violations": viol}
 
